@@ -75,10 +75,10 @@ CHECKS = {
           "for reflexivity/symmetry; IRI-list membership against the model.", TRUST, "DESIGN.md §4 C14"),
  "C15": C("TLA+ machine CollPath.tla (join/split walk with round-trip invariants) over IRI.tla; every owner x name replayed through "
           "IRIf/Split/OfActor/ValidCollectionIRI/Of/IRI; CollPathTrace.tla judges results parsed with net/url",
-          "Exhaustive over the generated owner space (516 owners x 8 names, nested once) and the helper cases.", TRUST, "DESIGN.md §4 C15"),
+          "Exhaustive over the generated owner space (516 owners x 8 names, nested once) and the helper cases (holders typed, generic-named and untyped; explicit collections as IRI, object, nil pointer, empty IRI).", TRUST, "DESIGN.md §4 C15"),
  "C16": C("TLA+ Flatten.tla (FlatV, relation FlattenWhy, IrisOf; SpecSatisfiesRelation/NoInvention/Idempotent model-checked); cases "
           "replayed through FlattenProperties and the direct functions twice; FlattenTrace.tla judges",
-          "Roots x flattened positions x 10 child shapes, addressing lists with duplicates, frame cases; random depth-2 values.",
+          "Roots (typed, generic-named, untyped, id-less) x flattened positions x 12 child shapes, addressing lists with duplicates and shared addressees, frame cases; random depth-2 values.",
           TRUST, "DESIGN.md §4 C16"),
  "C17": C("TLA+ Order.tla: strict-weak-order laws as ASSUMEs over all triples, sorting machine with termination; all pairs x Go types and "
           "all short lists replayed on ItemOrderTimestamp / sort.Slice; OrderTrace.tla judges",
@@ -86,10 +86,10 @@ CHECKS = {
           TRUST, "DESIGN.md §4 C17"),
  "C20": C("TLA+ matrix NilMatrix.tla (helpers x nil kinds x positions with the allowed outcome classes, totality model-checked); every "
           "cell executed on the real helper under recover(); NilMatrixTrace.tla judges outcome and callback-argument classes",
-          "Exhaustive: the whole matrix (66 top-level helpers + 14 container helpers x 15 nil kinds x positions).", TRUST, "DESIGN.md §4 C20"),
+          "Exhaustive: the whole matrix (81 top-level helpers incl. the Equals methods, Append growth and the page constructors + 18 container helpers x 18 nil kinds incl. *IRI, *IRIs, *ItemCollection x positions incl. every item-typed property of every struct).", TRUST, "DESIGN.md §4 C20"),
  "C18": C("TLA+ Copy.tla: merge relation MergeOK/MustRefuse over property maps, lattice model (unset/A/B per term) explored by TLC; "
           "(to, from) pairs replayed on CopyItemProperties; CopyTrace.tla judges guards, frame, no-loss, merged-wins",
-          "Every own property x set/unset on both sides per supported type, ordered property pairs on 3 types, guard cases; random subsets.",
+          "Every own property x set/unset on both sides per supported type, ordered property pairs on 3 types, guard cases, untyped targets, empty-but-present source properties, one identity in two shapes; random subsets.",
           TRUST, "DESIGN.md §4 C18"),
  "C19": C("TLA+ state machine (NatLang.tla, Set specified as a relation by its post-condition) model-checked by TLC; every "
           "(contents, op) pair and every pair of tag-distinct lists replayed on the real NaturalLanguageValues, random "
